@@ -72,7 +72,7 @@ pub fn judge_parse(s: &str) -> (bool, Option<Fail>) {
 /// (setter outcomes, build outcome)
 fn hist_outcome<'a, T>(h: &'a Hist, mk: &dyn Fn(&'a str) -> Option<T>) -> Option<(Vec<(usize, Out<()>)>, Outcome)>
 where
-    T: PurlShape + Clone,
+    T: PurlShape + Clone + crate::exec::Reparse,
     T::Error: Debug,
 {
     let run = run_hist(h, mk)?;
